@@ -8,6 +8,7 @@ CONSTANTS
   DcmRoutes <- OneRoute
   RotRoutes <- OneRoute
   ConjRoutes <- OneRoute
+  QuatMethods <- NoMethods
   MaxDepth = 1
 CONSTRAINT Bound
 INVARIANT Faithful
